@@ -361,6 +361,18 @@ def im7(ctx: Ctx):
                        sample="isinstance(port, bool) excluded (or None)")
 
 
+def _memo_store(e):
+    """`TABLE[k] = v` where k is made of the function's parameters only and v is computed from those same parameters and
+    constants by pure operations: the entry is the same whoever stores it first, so results do not depend on the fill
+    state and a concurrent double store is harmless."""
+    key_params = {t for t in walk(e.index) if t[0] == "param"}
+    if not key_params or any(t[0] not in ("param", "tuple", "const") for t in walk(e.index)):
+        return False
+    if not _stateless_value(e.value):
+        return False
+    return {t for t in walk(e.value) if t[0] == "param"} <= key_params
+
+
 def im8(ctx: Ctx):
     model = ctx.model
     rule = "IM8"
@@ -379,11 +391,62 @@ def im8(ctx: Ctx):
             recv = e.recv if e.kind == "mutate" else e.base
             root = root_of(recv)
             if root[0] == "global" and (root[1], root[2]) in containers:
+                if e.kind == "store_sub" and _memo_store(e):
+                    continue        # C[key] = pure_function(key): a hand-written memo, its content does not depend on history
                 bad.append((fi, e, root))
     ctx.instance(rule)
     ctx.ob(rule, "<package>", f"module-level containers {sorted(n for _m, n in containers)}", not bad,
            "module-level container mutated: " + ", ".join(f"{r[2]} in {fi.qual}" for fi, _e, r in bad),
            sample=f"{len(containers)} container(s), none mutated")
+
+
+_PURE_BUILTINS = {"str", "bytes", "frozenset", "tuple", "list", "dict", "set", "sorted", "len", "ord", "chr", "int", "bool", "min",
+                  "max", "enumerate", "zip", "range", "hex", "format", "repr", "reversed", "sum", "any", "all"}
+_PURE_METHODS = {"encode", "decode", "join", "lower", "upper", "format", "strip", "lstrip", "rstrip", "replace", "split", "rsplit",
+                 "partition", "rpartition", "casefold", "title", "zfill", "ljust", "rjust", "translate", "items", "keys", "values",
+                 "get", "copy", "union", "intersection", "difference", "fromkeys", "maketrans", "fromhex", "isascii", "startswith",
+                 "endswith", "find", "rfind"}
+
+
+def _stateless_value(v, depth=0):
+    """Data a shared quoter may keep: built from its constructor arguments and constants by pure operations (strings,
+    numbers, tuples, tables as dict / list / set displays and comprehensions) or another package quoter. Anything produced by
+    some other call - an incremental decoder, a stream, an iterator - may carry state that later calls would share."""
+    if depth > 12:
+        return False
+    tag = v[0]
+    if tag in ("param", "const", "global", "ext", "builtin", "elem", "slice"):
+        return True
+    if tag in ("binop", "cmp", "unop"):
+        return all(_stateless_value(x, depth + 1) for x in v[2:] if isinstance(x, tuple))
+    if tag == "fstr":
+        return all(p[0] == "const" or _stateless_value(p[1], depth + 1) for p in v[1])
+    if tag in ("tuple", "list", "set"):
+        return all(_stateless_value(x[1] if x[0] == "star" else x, depth + 1) for x in v[1])
+    if tag == "dict":
+        return all(_stateless_value(a, depth + 1) and _stateless_value(b, depth + 1) for a, b in v[1])
+    if tag == "comp":
+        return all(_stateless_value(x, depth + 1) for x in v[2]) and all(_stateless_value(x, depth + 1) for x in v[3])
+    if tag == "ucomp":
+        return all(_stateless_value(x, depth + 1) for _c, x in v[2])
+    if tag in ("sub", "item"):
+        return _stateless_value(v[1], depth + 1)
+    if tag == "attr":
+        return _stateless_value(v[1], depth + 1)        # a field of something stateless (self.<constructor constant>)
+    if tag == "mut":
+        return _stateless_value(v[1], depth + 1) and all(_stateless_value(a, depth + 1) for a in v[3])
+    if tag == "phi":
+        return True         # a loop-built table: its sources are judged where they are stored
+    if tag == "call":
+        f, args = v[1], tuple(v[2]) + tuple(x for _k, x in v[3])
+        if f[0] == "global" and f[2] in ("_Quoter", "_Unquoter"):
+            return True
+        if f[0] == "builtin" and f[1] in _PURE_BUILTINS:
+            return all(_stateless_value(a, depth + 1) for a in args)
+        if f[0] == "attr" and f[2] in _PURE_METHODS:
+            return _stateless_value(f[1], depth + 1) and all(_stateless_value(a, depth + 1) for a in args)
+        return False
+    return False
 
 
 def im9(ctx: Ctx, backends=("py", "pyx")):
@@ -409,12 +472,21 @@ def im9(ctx: Ctx, backends=("py", "pyx")):
                         if e.obj != ("param", "self"):
                             continue
                         v = e.value
-                        ok = v[0] in ("param", "const") or (v[0] == "call" and v[1][0] == "global" and v[1][2] in ("_Quoter", "_Unquoter"))
+                        ok = _stateless_value(v)
                         if not ok:
                             problems.append(f"self.{e.attr} = {show(v)[:50]} (a helper object shared by all later calls)")
                 else:
+                    init_attrs = {x.attr for x in analyze(model, model.func(f"{mod}.{cls}.__init__")).by_kind("store_attr")
+                                  if x.obj == ("param", "self")} if model.has_func(f"{mod}.{cls}.__init__") else set()
                     for e in r.by_kind("store_attr"):
                         if root_of(e.obj) == ("param", "self"):
+                            # a lazily memoised constant: a pure function of what the constructor stored, independent of the
+                            # call's arguments - every call (and thread) would store the same value
+                            reads = {t[2] for t in walk(e.value) if t[0] == "attr" and t[1] == ("param", "self")}
+                            params = {t for t in walk(e.value) if t[0] == "param" and t[1] != "self"}
+                            if e.obj == ("param", "self") and _stateless_value(e.value) and reads <= init_attrs and not params \
+                                    and e.attr not in init_attrs:
+                                continue
                             problems.append(f"stores self.{e.attr}")
                     for e in r.by_kind("mutate") + r.by_kind("store_sub"):
                         recv = e.recv if e.kind == "mutate" else e.base
